@@ -31,22 +31,23 @@ Proof.
   assert (Rabs z * Rabs d <= Rabs z * u) by (apply Rmult_le_compat_l; [apply Rabs_pos|exact Hd]). lra.
 Qed.
 
-Lemma near_abs x e B : nearF x e -> Rabs e <= B -> B <= 1000 -> Rabs x <= B + 1.
+Lemma near_abs x e B : nearF x e -> Rabs e <= B -> B <= 1000000 -> Rabs x <= B + 1.
 Proof.
-  unfold near. intros H He HB. pose proof u_small as Hu. destruct eta_bounds as [E0 E1].
+  unfold near. intros H He HB. pose proof u_small as Hu. pose proof u_tiny as Ut. destruct eta_bounds as [E0 E1].
   assert (u * u <= / 1000) by nra.
   assert (Rabs x <= Rabs e + Rabs (x - e)).
   { replace x with (e + (x - e)) at 1 by ring. apply Rabs_triang. }
-  pose proof (Rabs_pos e). assert (u * Rabs e <= / 1024 * 1000) by (apply Rmult_le_compat; lra). lra.
+  assert (U9 : u <= / 1000000000) by (rewrite u_val; lra).
+  pose proof (Rabs_pos e). assert (u * Rabs e <= / 1000000000 * 1000000) by (apply Rmult_le_compat; lra). lra.
 Qed.
 
-Lemma ok1000 z : Rabs z <= 1000 -> Rabs z <= bpow radix2 1023.
+Lemma ok1000 z : Rabs z <= 1000000 -> Rabs z <= bpow radix2 1023.
 Proof.
-  intros H. eapply Rle_trans; [exact H|]. apply Rle_trans with (bpow radix2 10); [simpl; lra|apply bpow_le; lia].
+  intros H. eapply Rle_trans; [exact H|]. apply Rle_trans with (bpow radix2 20); [simpl; lra|apply bpow_le; lia].
 Qed.
 
 Lemma mul_step x y B1 B2 : ffinite x = true -> ffinite y = true -> Rabs (FR x) <= B1 -> Rabs (FR y) <= B2 ->
-  B1 * B2 <= 1000 ->
+  B1 * B2 <= 1000000 ->
   ffinite (x * y)%float = true /\ nearF (FR (x * y)%float) (FR x * FR y) /\ Rabs (FR (x * y)%float) <= B1 * B2 + 1.
 Proof.
   intros Fx Fy Hx Hy HB.
@@ -58,7 +59,7 @@ Proof.
 Qed.
 
 Lemma sub_step x y B1 B2 : ffinite x = true -> ffinite y = true -> Rabs (FR x) <= B1 -> Rabs (FR y) <= B2 ->
-  B1 + B2 <= 1000 ->
+  B1 + B2 <= 1000000 ->
   ffinite (x - y)%float = true /\ nearF (FR (x - y)%float) (FR x - FR y) /\ Rabs (FR (x - y)%float) <= B1 + B2 + 1.
 Proof.
   intros Fx Fy Hx Hy HB.
@@ -70,7 +71,7 @@ Proof.
 Qed.
 
 Lemma add_step x y B1 B2 : ffinite x = true -> ffinite y = true -> Rabs (FR x) <= B1 -> Rabs (FR y) <= B2 ->
-  B1 + B2 <= 1000 ->
+  B1 + B2 <= 1000000 ->
   ffinite (x + y)%float = true /\ nearF (FR (x + y)%float) (FR x + FR y) /\ Rabs (FR (x + y)%float) <= B1 + B2 + 1.
 Proof.
   intros Fx Fy Hx Hy HB.
@@ -191,12 +192,12 @@ Proof.
   { unfold Rdiv. rewrite (Rmult_comm u), Rmult_assoc. apply Rmult_le_compat_l; [lra|].
     replace (Rabs (detR a b c)) with (1 * Rabs (detR a b c)) at 2 by ring. apply Rmult_le_compat_r; lra. }
   destruct (PrimFloat.ltb maxDetErr (x + y)%float) eqn:E1.
-  - intros _. apply fadd_gt in E1; auto; [|apply ok1000; exact Bxy].
+  - intros _. apply fadd_gt in E1; auto; [|apply ok1000; lra].
     symmetry. apply sgnR_pos.
     destruct (Rle_or_lt (detR a b c) 0) as [Hn|Hp]; [|exact Hp]. exfalso.
     rewrite (Rabs_left1 _ Hn) in *. lra.
   - destruct (PrimFloat.ltb (x + y)%float maxDetErrNeg) eqn:E2.
-    + intros _. apply fadd_lt in E2; auto; [|apply ok1000; exact Bxy]. rewrite EKn in E2.
+    + intros _. apply fadd_lt in E2; auto; [|apply ok1000; lra]. rewrite EKn in E2.
       symmetry. apply sgnR_neg.
       destruct (Rle_or_lt 0 (detR a b c)) as [Hn|Hp]; [|exact Hp]. exfalso.
       rewrite (Rabs_pos_eq _ Hn) in *. lra.
